@@ -229,3 +229,121 @@ def real_frames_stream(drv, rnd, cfg, n, **kw):
         if not cfg["ts"] or sync_clean([x for p in pk for x in p]):
             return frames, pk
     raise RuntimeError("no sync-clean stream found")
+
+
+# ---------------------------------------------------------------- C07 (round 2): transmitter pieces written from the standards
+# (ISO/IEC 13818-1 2.4.3.2 transport packet, 2.4.3.6 PES packet; EN 300 472 4.2; EN 301 775 4.3 - 4.8).  They mirror the
+# transmitter operators of spec/DvbStream.tla (TsPackets, EncPesU, Lofp, Stuffing); what a receiver must make of the
+# bytes is decided by TLC (spec/DvbDemux.tla) alone.
+REV8 = [int("{:08b}".format(b)[::-1], 2) for b in range(256)]
+CC525F1, CC525F2, WSSCPR = 32, 64, 2048
+PAYLEN.update({CC525F1: 2, CC525F2: 2, WSSCPR: 3})
+
+
+def lofp625(line):
+    """reserved '11', field_parity (1 = first field), line_offset; line 0 = undefined (EN 301 775 4.5.2)"""
+    return 0xE0 if line == 0 else (0xE0 + line if line < 32 else 0xC0 + (line - 313))
+
+
+def lofp525(line):
+    """the same for the 525-line data units documented in src/dvb.h (second field begins at line 263)"""
+    return 0xE0 + line if line < 32 else 0xC0 + (line - 263)
+
+
+def unit_of(l, fixed=False):
+    """one sliced line -> one data unit (data_unit_id, data_unit_length, bytes)"""
+    sid, line, d = l["id"], l["line"], l["data"]
+    if sid in (TTX, 1, 2):
+        # an undefined line still tells its field (field_parity): "f2" = second field
+        u = [0x02, 0x2C, 0xC0 if (line == 0 and l.get("f2")) else lofp625(line), 0xE4] + [REV8[x] for x in d[:42]]
+    elif sid == VPS:
+        u = [0xC3, 14, lofp625(line)] + list(d[:13])
+    elif sid == WSS:
+        u = [0xC4, 3, lofp625(line), REV8[d[0]], REV8[d[1]] | 3]
+    elif sid in (CC, 24):
+        u = [0xC5, 3, lofp625(line), REV8[d[0]], REV8[d[1]]]
+    elif sid in (CC525F1, CC525F2):
+        u = [0xB5, 3, lofp525(line), REV8[d[0]], REV8[d[1]]]
+    elif sid == WSSCPR:
+        u = [0xB4, 4, lofp525(line)] + list(d[:3])
+    else:
+        raise ValueError(sid)
+    if fixed:
+        u = [u[0], 0x2C] + u[2:] + [0xFF] * (46 - len(u))
+    return u
+
+
+def stuffing(n, fixed=False, lens=None):
+    """n bytes of stuffing data units; lens: data_unit_length values to use first (any length is legal in the
+    variable format, EN 301 775 4.4.2)"""
+    out = []
+    lens = list(lens or [])
+    while n > 0:
+        if fixed:
+            k = 46
+        elif lens and 2 + lens[0] <= n and n - (2 + lens[0]) != 1:
+            k = 2 + lens.pop(0)
+        else:
+            k = 256 if n == 258 else min(n, 257)
+        if k > n or k < 2:
+            raise ValueError("cannot stuff %d bytes" % n)
+        out += [0xFF, k - 2] + [0xFF] * (k - 2)
+        n -= k
+    return out
+
+
+def pts_bytes(pts):
+    hi, lo = pts
+    return [0x21 + 2 * hi, lo >> 22, ((lo >> 15) & 0x7F) * 2 + 1, (lo >> 7) & 0xFF, (lo & 0x7F) * 2 + 1]
+
+
+def enc_pes(units, pts, did=0x99, min_size=184, stuff_lens=None):
+    """a VBI PES packet of the data units `units` (byte lists): 45 byte header with PTS, data_identifier, the units,
+    stuffing up to the smallest N x 184 >= min_size"""
+    body = [b for u in units for b in u]
+    raw = 46 + len(body)
+    size = max(min_size, raw + (-raw) % 184)
+    if size - raw == 1:
+        size += 184
+    fill = stuffing(size - raw, 0x10 <= did <= 0x1F, stuff_lens)
+    plen = size - 6
+    return [0, 0, 1, 0xBD, plen >> 8, plen & 255, 0x84, 0x80, 0x24] + pts_bytes(pts) + [0xFF] * 31 + [did] + body + fill
+
+
+def ts_header(pid, pusi, cc, afc=1, tei=0, tsc=0):
+    return [0x47, (0x80 if tei else 0) | (0x40 if pusi else 0) | (pid >> 8), pid & 255, (tsc << 6) | (afc << 4) | (cc & 15)]
+
+
+def ts_packetize(pes_packets, pid, cc0):
+    """-> (packets, owner): 188 byte transport packets carrying the PES packets, continuity counters cc0, cc0 + 1 ...
+    (mod 16); owner[k] = index of the PES packet that packet k belongs to"""
+    out, owner = [], []
+    cc = cc0
+    for j, pes in enumerate(pes_packets):
+        assert len(pes) % 184 == 0
+        for i in range(0, len(pes), 184):
+            out.append(ts_header(pid, i == 0, cc) + list(pes[i:i + 184]))
+            owner.append(j)
+            cc += 1
+    return out, owner
+
+
+def ts_other(rnd, pid, cc):
+    """a packet of another PID with harmless payload"""
+    return ts_header(pid, False, cc) + [rnd.choice(SAFE) for _ in range(184)]
+
+
+def ts_null():
+    return ts_header(0x1FFF, False, 0) + [0xFF] * 184
+
+
+def ts_af_only(pid, cc):
+    """adaptation field only (adaptation_field_control '10'): no payload, the counter does not advance (2.4.3.3)"""
+    return ts_header(pid, False, cc, afc=2) + [183, 0] + [0xFF] * 182
+
+
+def pes_of_mux(pk, ts):
+    """PES packets (byte lists) from what the real multiplexer emitted per frame (TS: the packets of one frame)"""
+    if not ts:
+        return [list(p) for p in pk]
+    return [[b for i in range(0, len(p), 188) for b in p[i + 4:i + 188]] for p in pk]
